@@ -89,7 +89,7 @@ func VP_C16_CheckExact() {
 	vpFsPermute(true)
 	err := d.Check()
 	vpFsPermute(false)
-	vpAssert("check-accepts-exactly-valid-directories", (err == nil) == refCheck(ents))
+	vpAssert("model: check-accepts-exactly-valid-directories (any listing order)", (err == nil) == refCheck(ents))
 	vpCover("end")
 }
 
@@ -98,13 +98,13 @@ func VP_C16_CheckExact() {
 func VP_C16_InitOnlyOnEmpty() {
 	base := vpMkStoreDir()
 	d := vpNewDir(base, 1)
-	ents := vpPopulate(base, 1+vpTier())
+	ents := vpPopulate(base, 2+vpTier())
 	empty := len(ents) == 0 || (len(ents) == 1 && ents[0].name == ".tmp" && ents[0].isDir)
 	vpFsPermute(true)
 	err := d.Init("root", vpStr("initpw", 2))
 	vpFsPermute(false)
-	vpAssert("init-succeeds-only-on-empty-directory", vpImp(err == nil, empty))
-	vpAssert("init-succeeds-on-empty-directory", vpImp(empty, err == nil))
+	vpAssert("model: init-succeeds-only-on-empty-directory (any listing order)", vpImp(err == nil, empty))
+	vpAssert("model: init-succeeds-on-empty-directory (any listing order)", vpImp(empty, err == nil))
 	if err == nil {
 		vpAssert("initialised-store-is-valid", d.Check() == nil)
 		ex, adm, _ := d.Exists("root")
